@@ -2,8 +2,8 @@
 # usage: selftest/mut.sh <patch-file> [-R] -- <Cxx>...   : apply the patch to a scratch worktree of /repo, run the checks there, revert.
 # Development aid (not registered): the scratch worktree lives in /tmp/ddo-mut and is removed by `selftest/mut.sh --clean`.
 set -u
-WT=/tmp/ddo-mut
-if [ "${1:-}" = "--clean" ]; then git -C /repo worktree remove --force $WT 2>/dev/null; rm -rf $WT /tmp/ddo-mut-evid; exit 0; fi
+WT=${MUT_WT:-/tmp/ddo-mut}
+if [ "${1:-}" = "--clean" ]; then git -C /repo worktree remove --force $WT 2>/dev/null; rm -rf $WT ${WT}-evid; exit 0; fi
 PATCH=$1; shift
 REV=""
 if [ "${1:-}" = "-R" ]; then REV="-R"; shift; fi
@@ -14,6 +14,6 @@ git -C $WT checkout -q -- .
 git -C $WT apply $REV "$PATCH" || { echo "PATCH DOES NOT APPLY"; exit 2; }
 rc=0
 for p in "$@"; do
-  DDO_REPO=$WT VERIF_EVIDENCE_DIR=/tmp/ddo-mut-evid /verif/check $p quick 2>&1 | sed "s|$WT|<wt>|g" | grep -E "VIOLATION|KNOWN|^\[C|rule " | cut -c1-420
+  DDO_REPO=$WT VERIF_EVIDENCE_DIR=${WT}-evid /verif/check $p quick 2>&1 | sed "s|$WT|<wt>|g" | grep -E "VIOLATION|KNOWN|^\[C|rule " | cut -c1-420
 done
 git -C $WT checkout -q -- .
